@@ -214,3 +214,160 @@ class AddConditionApply(Contract):
 
     def frame_ok(self, I, inp, obj, name):
         return obj is not inp["self"]
+
+
+FLD = "sigma.processing.transformations.fields"
+
+
+@register
+class PrefixMappingFieldName(Contract):
+    """field_name_prefix_mapping: the first mapping entry whose source is a prefix of the field decides; the result is the destination
+    prefix followed by the REST of the field name (only the leading occurrence is rewritten); no entry matches: not mapped"""
+    id = "C12.FieldPrefixMappingTransformation.apply_field_name"
+    target = f"{FLD}:FieldPrefixMappingTransformation.apply_field_name"
+    props = ("C12",)
+    cases = ("str", "list", "second", "none", "keyword")
+    assumed = ["mapping of two entries (unrolled), first with a string destination, second with a two-element list"]
+
+    def args(self, I, case):
+        f = {n: I.fresh(n, "str") for n in ("src0", "dest0", "src1", "d1a", "d1b", "field")}
+        c = I.ctx
+        p0, p1 = z3.PrefixOf(f["src0"].t, f["field"].t), z3.PrefixOf(f["src1"].t, f["field"].t)
+        c.assume(f["src0"].t != f["src1"].t)
+        if case == "str":
+            c.assume(p0)
+        elif case in ("list", "second"):
+            c.assume(z3.And(z3.Not(p0), p1))
+        elif case == "none":
+            c.assume(z3.And(z3.Not(p0), z3.Not(p1)))
+        mapping = {f["src0"]: f["dest0"], f["src1"]: [f["d1a"], f["d1b"]]}
+        me = SObj(I.E.index.lookup(f"{FLD}:FieldPrefixMappingTransformation"), {"mapping": mapping}, lazy=True)
+        return {"self": me, "args": [None if case == "keyword" else f["field"]], "f": f, "case": case}
+
+    def post(self, I, inp, r):
+        c, f, case = I.ctx, inp["f"], inp["case"]
+        fld = f["field"].t
+
+        def rest(src):
+            return z3.SubString(fld, z3.Length(src), z3.Length(fld) - z3.Length(src))
+        if case in ("none", "keyword"):
+            c.require(r is None, "no prefix matches (or keyword item): not mapped")
+        elif case == "str":
+            c.require(isinstance(r, (Sym, str)) and True, "a string is returned")
+            if isinstance(r, (Sym, str)):
+                c.require(mk_str(r) == z3.Concat(f["dest0"].t, rest(f["src0"].t)), "destination prefix + the field name after the source prefix")
+        else:
+            r = I.force(r) if not isinstance(r, list) else r
+            ok = isinstance(r, list) and len(r) == 2 and all(isinstance(x, (Sym, str)) for x in r)
+            c.require(ok, "one name per destination prefix")
+            if ok:
+                for x, d in zip(r, ("d1a", "d1b")):
+                    c.require(mk_str(x) == z3.Concat(f[d].t, rest(f["src1"].t)), "destination prefix + the field name after the source prefix, in order")
+
+    def model_terms(self, inp):
+        return {n: v.t for n, v in inp["f"].items()}
+
+    def candidates(self):
+        for field in ("win.data.win.image", "aa", "ab.ab", "x", "p.p.p"):
+            for s0, s1 in (("win.", "a"), ("a", "ab"), ("p.", "x"), ("zz", "p")):
+                yield {"src0": s0, "dest0": "D0_", "src1": s1, "d1a": "Da_", "d1b": "Db_", "field": field}
+
+    def replay(self, values):
+        from sigma.processing.transformations.fields import FieldPrefixMappingTransformation
+        v = {n: values.get(n) or "" for n in ("src0", "dest0", "src1", "d1a", "d1b", "field")}
+        if v["src0"] == v["src1"]:
+            return None
+        t = FieldPrefixMappingTransformation({v["src0"]: v["dest0"], v["src1"]: [v["d1a"], v["d1b"]]})
+        got = t.apply_field_name(v["field"])
+        fld = v["field"]
+        want = v["dest0"] + fld[len(v["src0"]):] if fld.startswith(v["src0"]) else [d + fld[len(v["src1"]):] for d in (v["d1a"], v["d1b"])] if fld.startswith(v["src1"]) else None
+        return None if got == want else f"prefix mapping {{{v['src0']!r}: {v['dest0']!r}, {v['src1']!r}: [{v['d1a']!r}, {v['d1b']!r}]}} maps field {fld!r} to {got!r}; only the leading prefix is to be rewritten: {want!r}"
+
+    def frame_ok(self, I, inp, obj, name):
+        return False
+
+
+class _Affix(Contract):
+    """field_name_prefix / field_name_suffix: prefix + field respectively field + suffix; keyword items are not mapped"""
+    props = ("C12",)
+    cases = (False, True)
+    clsname = ""
+
+    def args(self, I, case):
+        f = {"affix": I.fresh("affix", "str"), "field": I.fresh("field", "str")}
+        me = SObj(I.E.index.lookup(f"{FLD}:{self.clsname}"), {"prefix" if "Prefix" in self.clsname else "suffix": f["affix"]}, lazy=True)
+        return {"self": me, "args": [None if case else f["field"]], "f": f, "case": case}
+
+    def post(self, I, inp, r):
+        f = inp["f"]
+        if inp["case"]:
+            I.ctx.require(r is None, "keyword items are not mapped")
+        else:
+            I.ctx.require(isinstance(r, (Sym, str)), "a string is returned")
+            if isinstance(r, (Sym, str)):
+                want = z3.Concat(f["affix"].t, f["field"].t) if "Prefix" in self.clsname else z3.Concat(f["field"].t, f["affix"].t)
+                I.ctx.require(mk_str(r) == want, "prefix + field / field + suffix")
+
+    def frame_ok(self, I, inp, obj, name):
+        return False
+
+
+@register
+class PrefixFieldName(_Affix):
+    id = "C12.AddFieldnamePrefixTransformation.apply_field_name"
+    target = f"{FLD}:AddFieldnamePrefixTransformation.apply_field_name"
+    clsname = "AddFieldnamePrefixTransformation"
+
+
+@register
+class SuffixFieldName(_Affix):
+    id = "C12.AddFieldnameSuffixTransformation.apply_field_name"
+    target = f"{FLD}:AddFieldnameSuffixTransformation.apply_field_name"
+    clsname = "AddFieldnameSuffixTransformation"
+
+
+@register
+class RegexReplacePlaceholders(Contract):
+    """SigmaRegularExpression.replace_placeholders: one regular expression per replacement of the pattern, each with the FLAGS of the
+    original; a result that still contains placeholders keeps its parts, a complete one is re-parsed from its text"""
+    id = "C12.SigmaRegularExpression.replace_placeholders"
+    target = "sigma.types:SigmaRegularExpression.replace_placeholders"
+    props = ("C12", "C17")
+    assumed = ["SigmaString.replace_placeholders by its contract (C17); two results (one complete, one with placeholders left), unrolled"]
+
+    def setup(self, E):
+        E.summaries["sigma.types:SigmaRegularExpression"] = lambda I, so, a, k: SObj("RX", {"a": list(a), "k": dict(k)})
+
+    def args(self, I):
+        texts = [I.fresh("text0", "str"), I.fresh("text1", "str")]
+        res = [SObj("SStr", {"contains_placeholder": NativeFn("contains_placeholder", lambda I2, a, k, v=v: v), "__str__": NativeFn("__str__", lambda I2, a, k, t=t: t)}, ghost={"text": t})
+               for v, t in zip((False, True), texts)]
+        cb = SObj("Callback", {})
+        got = {}
+
+        def rp(I2, a, k):
+            got["cb"] = a[0] if a else k.get("callback")
+            return list(res)
+        flags = I.fresh("flags", "opaque", "FlagSet")
+        me = SObj(I.E.index.lookup("sigma.types:SigmaRegularExpression"), {"regexp": SObj("SStr", {"replace_placeholders": NativeFn("replace_placeholders", rp)}), "flags": flags}, lazy=True)
+        return {"self": me, "args": [cb], "res": res, "flags": flags, "cb": cb, "got": got, "texts": texts}
+
+    def post(self, I, inp, r):
+        c = I.ctx
+        r = I.force(r) if not isinstance(r, list) else r
+        ok = isinstance(r, list) and len(r) == 2 and all(isinstance(x, SObj) and x.cls == "RX" for x in r)
+        c.require(ok, "one regular expression per replacement result, in order")
+        c.require(inp["got"].get("cb") is inp["cb"], "the callback is passed on to the pattern's replace_placeholders")
+        if ok:
+            for i, x in enumerate(r):
+                a, k = x.fields["a"], x.fields["k"]
+                fl = a[1] if len(a) > 1 else k.get("flags")
+                c.require(fl is inp["flags"], "the flags of the original regular expression are kept")
+                pat = a[0] if a else k.get("regexp")
+                if i == 1:
+                    c.require(pat is inp["res"][1], "a result with placeholders left keeps its parts")
+                else:
+                    c.require(pat is inp["res"][0] or (isinstance(pat, Sym) and pat.kind == "str" and "strof" in str(pat.t)), "a complete result is taken as its text str(result) (or as it is)")
+
+    def frame_ok(self, I, inp, obj, name):
+        return False
